@@ -97,28 +97,28 @@ Definition rectangular (rs : list (list byte * list byte)) : bool :=
   | r :: t => forallb (fun r' => Nat.eqb (length (snd r')) (length (snd r))) t
   end.
 
-Definition spec_ok (c : case) : bool :=
+Definition spec_check (c : case) : option bool :=
   let out := unrows (c_out c) in
   match c_op c with
   | OpCodonRow gc b1 b2 b3s =>
-      if valid_gc gc then negb (c_err c) && rows_eqb out [([], map (spec_codon gc b1 b2) (unbs b3s))]
-      else true
+      if valid_gc gc then Some (negb (c_err c) && rows_eqb out [([], map (spec_codon gc b1 b2) (unbs b3s))])
+      else None
   | OpSeq gc phase s =>
       let s := unbs s in
       if valid_gc gc && residues s && Z.leb 0 phase && Z.leb phase 2 then
         let n := (length s - Z.to_nat phase) / 3 in
-        if Nat.eqb n 0 then c_err c
-        else negb (c_err c) && rows_eqb out [([], spec_translate gc (skipn (Z.to_nat phase) s))]
-      else true
+        Some (if Nat.eqb n 0 then c_err c
+              else negb (c_err c) && rows_eqb out [([], spec_translate gc (skipn (Z.to_nat phase) s))])
+      else None
   | OpBag alphabet gc phase rows | OpAlign alphabet gc phase rows =>
       let rs := unrows rows in
       if valid_gc gc && Z.eqb alphabet NUCLEOTIDS && forallb (fun r => residues (snd r)) rs
          && nodup_names (map fst rs) && Z.leb (-1) phase && Z.leb phase 2 then
-        if forallb (fun r => Nat.leb (3 + max_phase phase) (length (snd r))) rs then
+        Some (if forallb (fun r => Nat.leb (3 + max_phase phase) (length (snd r))) rs then
           negb (c_err c) && rows_eqb out (spec_frames gc phase rs) &&
           (match c_op c with OpAlign _ _ _ _ => Z.eqb (c_len c) (align_len (spec_frames gc phase rs)) | _ => true end)
-        else c_err c
-      else true
+        else c_err c)
+      else None
   | OpCodonAlign gc palpha ntalpha prot nts =>
       let prot := unrows prot in
       let nts := unrows nts in
@@ -128,7 +128,7 @@ Definition spec_ok (c : case) : bool :=
                            | Some nt => nogap nt && bytes_eqb (ungap (snd r)) (spec_translate gc nt)
                            | None => false end) prot
       then
-        negb (c_err c) && list_eqb bytes_eqb (map fst out) (map fst prot) &&
+        Some (negb (c_err c) && list_eqb bytes_eqb (map fst out) (map fst prot) &&
         forallb (fun pr =>
                    let '(r, o) := pr in
                    match lassoc (fst r) nts with
@@ -139,14 +139,14 @@ Definition spec_ok (c : case) : bool :=
                        bytes_eqb (spec_translate gc (snd o)) (snd r)
                    | None => false
                    end) (combine prot out) &&
-        Nat.eqb (length out) (length prot)
-      else true
+        Nat.eqb (length out) (length prot))
+      else None
   | OpByRef alphabet gc phase refname rows =>
       let rs := unrows rows in
       if valid_gc gc && Z.eqb alphabet NUCLEOTIDS && forallb (fun r => residues (snd r)) rs
          && nodup_names (map fst rs) && rectangular rs && mem_name (unbs refname) (map fst rs)
          && negb (Nat.eqb (length (unbs refname)) 0) && Z.leb 0 phase && Z.leb phase 2 then
-        negb (c_err c) &&
+        Some (negb (c_err c) &&
         (* (a) no gap anywhere: coincides with plain translation in every frame *)
         (if forallb (fun r => nogap (snd r)) rs &&
             forallb (fun r => Nat.leb (3 + Z.to_nat phase) (length (snd r))) rs
@@ -159,8 +159,10 @@ Definition spec_ok (c : case) : bool :=
            | Some rr, Some ro => prefixb (ungap ro) (spec_translate gc (ungap rr))
            | _, _ => false
            end
-         else true)
-      else true
+         else true))
+      else None
   end.
 
+Definition spec_ok (c : case) : bool := ok_of (spec_check c).
 Definition failing := failing_gen model_ok spec_ok.
+Definition count_judged := count_judged_gen spec_check.
